@@ -41,13 +41,14 @@ Section KeySet.
   (* generic.go:59-72 encodeKeys traverses every bucket *)
   Definition g_keys (s : gset) : list key := flat_map snd s.
 
-  (* ---- primitive.go:9-24: originalKeys map[T]struct{}; a Go map finds a stored key iff it is == to the looked-up key
-     (so a NaN is never found and can be added repeatedly).  LocateOriginalKey returns the key it was GIVEN. *)
+  (* ---- primitive.go:9-24: originalKeys map[T]T, each key mapped to the value the caller supplied; a Go map finds a stored key
+     iff it is == to the looked-up key (so a NaN is never found and can be added repeatedly; +0 and -0 are one key).
+     LocateOriginalKey returns the STORED value (`originalKey, found = s.originalKeys[key]`). *)
   Definition pset := list key.
   Definition p_add (s : pset) (t : key) : option pset :=
     if existsb (fun k => keq k t) s then None else Some (s ++ [t]).
   Definition p_locate (s : pset) (k : key) : option key :=
-    if existsb (fun o => keq o k) s then Some k else None.
+    find (fun o => keq o k) s.
 
   (* ---- the BatchKeySet interface (set.go:11-22), the constructor choice is NewBatchKeySet's (generic.go:115-160) *)
   Inductive kset := GSet (s : gset) | PSet (s : pset).
